@@ -240,6 +240,30 @@ func init() {
 				return nil, err
 			}
 			s.add(st)
+			{ // random walks from the deep roots, far deeper than the exhaustive tree
+				nch, ln := 600, 12
+				if cfg.Tier == "thorough" {
+					nch *= 6
+				}
+				he := heapExplorer(ln, cfg.Tier)
+				ops := he.Ops
+				he.Ops = func(path []tt.Op) []tt.Op {
+					r := ops(path)
+					if len(path) == 0 {
+						return r[:12]
+					}
+					return r
+				}
+				rf := cfg.Out + ".rnd.lin.ndjson"
+				rn, err := tt.RandomChains(he, rf, nch, ln, cfg.Seed*31+7)
+				if err != nil {
+					return nil, err
+				}
+				s.Files = append(s.Files, rf)
+				s.Nodes += rn
+				s.Leaves += nch
+				s.Extra["random_walks"] = nch
+			}
 			runs, steps := 6, 400
 			if cfg.Tier == "thorough" {
 				runs, steps = 24, 3000
